@@ -1,6 +1,7 @@
 import TsVerif.C02.Props
 import TsVerif.C02.EditProps
 import TsVerif.C02.BalanceProps
+import TsVerif.C02.BalanceSumm
 #print axioms TsVerif.C02.summarize_padding_size
 #print axioms TsVerif.C02.spans_nested
 #print axioms TsVerif.C02.siblings_ordered
@@ -32,3 +33,9 @@ import TsVerif.C02.BalanceProps
 #print axioms TsVerif.C02.balance_root_extent
 #print axioms TsVerif.C02.nodeOK_summarize
 #print axioms TsVerif.C02.compress_summarized
+#print axioms TsVerif.C02.summarize_six_congr
+#print axioms TsVerif.C02.nodeOK_congr
+#print axioms TsVerif.C02.rotation_sums
+#print axioms TsVerif.C02.compressGo_face
+#print axioms TsVerif.C02.balanceNode_face
+#print axioms TsVerif.C02.balance_summarized
